@@ -480,68 +480,104 @@ Definition FuelM {A} : M A := ([], Fuel).
 Definition UnsuppM {A} : M A := ([], Unsupp).
 Notation "'do' x <- r ; k" := (bindM r (fun x => k)) (at level 200, x pattern, r at level 100, k at level 200).
 
+(* list-level helpers, parameterised by the evaluator of one expression / statement
+   (the evaluator passes itself at the next lower fuel) *)
+Fixpoint evals_with (ev : expr -> st -> M (value * st)) (es : list expr) (s : st)
+  : M (list value * st) :=
+  match es with
+  | [] => OkM ([], s)
+  | e :: r => do (v, s1) <- ev e s; do (vs, s2) <- evals_with ev r s1; OkM (v :: vs, s2)
+  end.
+
+Fixpoint indices_with (ev : expr -> st -> M (value * st)) (es : list expr) (s : st)
+  : M (list Z * st) :=
+  match es with
+  | [] => OkM ([], s)
+  | e :: r => do (v, s1) <- ev e s; do i <- lift (index_value v);
+              do (is, s2) <- indices_with ev r s1; OkM (i :: is, s2)
+  end.
+
+(* get_mutable_array on receiver `o`, then the mutation *)
+Definition mutate_with (ev : expr -> st -> M (value * st)) (o : expr) (op : mutop) (s : st)
+  : M (value * st) :=
+  match o with
+  | EVar vn vl =>
+      match lookup_env vl vn (env s) with
+      | None => PanicM PMutVarMissing
+      | Some root =>
+          do (root', r) <- lift (mutate_path root [] op);
+          match assign_env vl vn root' (env s) with
+          | Some e' => OkM (r, with_env e' s)
+          | None => PanicM PMutVarMissing
+          end
+      end
+  | EIdx _ _ =>
+      match flatten_target o [] with
+      | None => ErrM TypeMis
+      | Some (vn, vl, idx_exprs) =>
+          do (path, s1) <- indices_with ev idx_exprs s;
+          match lookup_env vl vn (env s1) with
+          | None => PanicM PMutVarMissing
+          | Some root =>
+              do (root', r) <- lift (mutate_path root path op);
+              match assign_env vl vn root' (env s1) with
+              | Some e' => OkM (r, with_env e' s1)
+              | None => PanicM PMutVarMissing
+              end
+          end
+      end
+  | _ => ErrM TypeMis
+  end.
+
+(* eval_string_expr: interpolation reads variables by reference *)
+Fixpoint interp_segs (e : list (list slot)) (segs : list seg) : res (list Z) :=
+  match segs with
+  | [] => Ok []
+  | SegLit b :: r => match interp_segs e r with Ok rest => Ok (b ++ rest) | x => x end
+  | SegVar vn vl :: r =>
+      match lookup_env vl vn e with
+      | None => Panic PSegVar
+      | Some v => match interp_segs e r with Ok rest => Ok (display v ++ rest) | x => x end
+      end
+  end.
+
+(* parameter slots: ids are local_range.start + position when the callee is bound *)
+Fixpoint bind_params (fid : option Z) (lstart : Z) (ps : list name) (vs : list value) (k : Z)
+         (acc : list slot) : list slot :=
+  match ps, vs with
+  | p :: ps', v :: vs' =>
+      bind_params fid lstart ps' vs' (k + 1)
+        ({| s_id := match fid with Some _ => Some (lstart + k) | None => None end;
+            s_name := p; s_val := v |} :: acc)
+  | _, _ => acc
+  end.
+
+(* the statements of a block, in order, skipping the ones the plan removes *)
+Fixpoint stmts_with (ex : stmt -> st -> M (flow * st)) (ts : list stmt) (s : st)
+  : M (flow * st) :=
+  match ts with
+  | [] => OkM (FNormal, pop_scope s)
+  | t :: r =>
+      if in_plan_stmt P (stmt_sid t) then stmts_with ex r s
+      else
+        do (fl, s') <- ex t s;
+        match fl with
+        | FNormal => stmts_with ex r s'
+        | _ => OkM (fl, pop_scope s')
+        end
+  end.
+
 Fixpoint eval (n : nat) (e : expr) (s : st) {struct n} : M (value * st) :=
   match n with
   | O => FuelM
   | S n' =>
-    let evals :=
-      fix evals (es : list expr) (s : st) : M (list value * st) :=
-        match es with
-        | [] => OkM ([], s)
-        | e :: r => do (v, s1) <- eval n' e s; do (vs, s2) <- evals r s1; OkM (v :: vs, s2)
-        end in
-    let eval_indices :=
-      fix eval_indices (es : list expr) (s : st) : M (list Z * st) :=
-        match es with
-        | [] => OkM ([], s)
-        | e :: r => do (v, s1) <- eval n' e s; do i <- lift (index_value v);
-                    do (is, s2) <- eval_indices r s1; OkM (i :: is, s2)
-        end in
-    (* get_mutable_array on receiver `o`, then the mutation *)
-    let mutate (o : expr) (op : mutop) (s : st) : M (value * st) :=
-      match o with
-      | EVar vn vl =>
-          match lookup_env vl vn (env s) with
-          | None => PanicM PMutVarMissing
-          | Some root =>
-              do (root', r) <- lift (mutate_path root [] op);
-              match assign_env vl vn root' (env s) with
-              | Some e' => OkM (r, with_env e' s)
-              | None => PanicM PMutVarMissing
-              end
-          end
-      | EIdx _ _ =>
-          match flatten_target o [] with
-          | None => ErrM TypeMis
-          | Some (vn, vl, idx_exprs) =>
-              do (path, s1) <- eval_indices idx_exprs s;
-              match lookup_env vl vn (env s1) with
-              | None => PanicM PMutVarMissing
-              | Some root =>
-                  do (root', r) <- lift (mutate_path root path op);
-                  match assign_env vl vn root' (env s1) with
-                  | Some e' => OkM (r, with_env e' s1)
-                  | None => PanicM PMutVarMissing
-                  end
-              end
-          end
-      | _ => ErrM TypeMis
-      end in
+    let evals := evals_with (eval n') in
+    let eval_indices := indices_with (eval n') in
+    let mutate := mutate_with (eval n') in
     match e with
     | ENum x => OkM (VNum x, s)
     | EStr b => OkM (VStr b, s)
-    | EInterp segs =>
-        let fix go (segs : list seg) : M (list Z) :=
-          match segs with
-          | [] => OkM []
-          | SegLit b :: r => do rest <- go r; OkM (b ++ rest)
-          | SegVar vn vl :: r =>
-              match lookup_env vl vn (env s) with
-              | None => PanicM PSegVar
-              | Some v => do rest <- go r; OkM (display v ++ rest)
-              end
-          end in
-        do b <- go segs; OkM (VStr b, s)
+    | EInterp segs => do b <- lift (interp_segs (env s) segs); OkM (VStr b, s)
     | EBool b => OkM (VBool b, s)
     | ENull => OkM (VNull, s)
     | EVar vn vl =>
@@ -721,15 +757,7 @@ Fixpoint eval (n : nat) (e : expr) (s : st) {struct n} : M (value * st) :=
                          | Some _ => f_llen fd <? Z.of_nat (length (f_params fd))
                          | None => false end) then PanicM PParamRange
                 else
-                  let fix mk (ps : list name) (vs : list value) (k : Z) (acc : list slot) : list slot :=
-                    match ps, vs with
-                    | p :: ps', v :: vs' =>
-                        mk ps' vs' (k + 1)
-                           ({| s_id := match f_id fd with Some _ => Some (f_lstart fd + k) | None => None end;
-                               s_name := p; s_val := v |} :: acc)
-                    | _, _ => acc
-                    end in
-                  let s2 := push_scope (mk (f_params fd) vs 0 []) s1 in
+                  let s2 := push_scope (bind_params (f_id fd) (f_lstart fd) (f_params fd) vs 0 []) s1 in
                   do (fl, s3) <- exec_block n' (f_body fd) s2;
                   let s4 := pop_scope s3 in
                   match fl with
@@ -762,13 +790,7 @@ with exec (n : nat) (t : stmt) (s : st) {struct n} : M (flow * st) :=
         match flatten_target target [] with
         | None => ErrM TypeMis
         | Some (vn, vl, idx_exprs) =>
-            let fix eval_indices (es : list expr) (s : st) : M (list Z * st) :=
-              match es with
-              | [] => OkM ([], s)
-              | e :: r => do (iv, s1) <- eval n' e s; do i <- lift (index_value iv);
-                          do (is, s2) <- eval_indices r s1; OkM (i :: is, s2)
-              end in
-            do (path, s2) <- eval_indices idx_exprs s1;
+            do (path, s2) <- indices_with (eval n') idx_exprs s1;
             match lookup_env vl vn (env s2) with
             | None => PanicM PMutVarMissing
             | Some root =>
@@ -816,19 +838,7 @@ with exec_block (n : nat) (b : list stmt) (s : st) {struct n} : M (flow * st) :=
   | O => FuelM
   | S n' =>
       do s1 <- lift (hoist P b (push_scope [] s));
-      let fix go (ts : list stmt) (s : st) : M (flow * st) :=
-        match ts with
-        | [] => OkM (FNormal, pop_scope s)
-        | t :: r =>
-            if in_plan_stmt P (stmt_sid t) then go r s
-            else
-              do (fl, s') <- exec n' t s;
-              match fl with
-              | FNormal => go r s'
-              | _ => OkM (fl, pop_scope s')
-              end
-        end in
-      go b s1
+      stmts_with (exec n') b s1
   end.
 
 End Run.
